@@ -28,6 +28,7 @@ ASSUMPTIONS = [
     "fail-fast rejection = any MetapypeRuleError; collecting rejection = non-empty list of well-formed entries",
 ]
 REQUIRED = ["validations_below_a_real_parent", "single_children_standing_in_for_text", "same_node_same_list_validated_twice", "coordinate_anchor_cases", "validations_on_long_lived_node", "childless_judged_right_after_same_content_with_children", "accept_agree", "reject_agree", "failfast_calls", "collecting_calls"]
+THREAD_HAMMER = "full"      # (mode T side shards: the hammering threads also import, load and copy documents of their own)
 EXHAUSTIVE = {"quick": False, "thorough": False}
 
 CONTENT_CODES_PREFIX = ("CONTENT_", "STR_CONTENT", "UNKNOWN_CONTENT_RULE")
